@@ -46,15 +46,58 @@ PROVED = [
     'bound suffices (while pow < deg; while index > 1; square-and-multiply)',
     '[C] prime_loop_no_underflow_partial: in the dev profile the u64 update e -= 2*howmany never overflows, so the only panics of the '
     'while loop are those of one_step, PROVIDED every lattice produced on the way has an integral discriminant (i.e. is an order)',
+    # ---- third wave
+    '[P] mul_mod_p_closed: on an n x n x n table and p != 0, mul_mod_p a b t p = [ (sum_ij a_i b_j t[i][j][k]) % p ]_k (closed form, '
+    'bilinear over integer combinations: tmul_lincomb_l/r); kernel_hnf_trunc_spec: HNF::new(HNF::kernel(m)) truncated to w columns '
+    'generates the projection on the first w coordinates of the integer left kernel of m (C03 kernel_basis + C02 hnf_lattice)',
+    '[P] compute_i_p_spec: the rows of I_p generate exactly { x in Z^deg : sum_i x_i Phi_i = 0 (mod p) }, Phi_i = e_i^pow by the model\'s '
+    'pow_mod_p (both inclusions); i_p_contains_p: p Z^deg is inside; compute_i_p_total: no panic on well-shaped tables',
+    '[P] pow_additive (freshman\'s dream for pow_mod_p): for a commutative associative table with a unit, p prime, table reduced mod p^2 '
+    'then mod p as one_step does, q = p^k: x^q = sum_i x_i e_i^q (mod p) and x^q = 0 => (yx)^q = 0 (mod p) (regular representation mod p '
+    'into commuting matrices over F_p, Frobenius_autD_comm); order_has_unit: the table of an order containing 1 has a unit',
+    '[P] up_step_spec / up_step_total: one iteration of the U_p loop never panics on well-shaped data and returns a normal form of '
+    '{ u in current U_p : i_p[i] * u in p I_p } (table mod p^2; the reduction is immaterial because p^2 Z^deg is inside p I_p)',
+    '[P] one_step_lattices: in every returning call of one_step, I_p as above and U_p = { u in I_p : x*u in p I_p for all x in I_p }; '
+    'h generates U_p + p Z^deg',
+    '[P] reachable_step_order / one_step_order_one: for every step the driver can take (order reachable from the starting order, prime p, '
+    'non-zero leading coefficient) and that returns: the exact table T of the order exists, is commutative and associative, the step\'s '
+    'tables are its reductions (mult_tables_exact); the power map is additive mod p (pow_linear), I_p = { x : x^pow = 0 mod p } '
+    '(the p-radical, with the model\'s pow_mod_p), I_p is an ideal (ideal_of), and L = U_p + p Z^deg satisfies L*L in pL and contains '
+    'p Z^deg: the new lattice (1/p) L O contains O and is closed under multiplication (in coordinates w.r.t. the input order)',
+    '[C] one_step_ring_closed_partial: the same ring closure for any input order with a deg x deg basis and any p != 0, conditional on '
+    'ideal_of (I_p is an ideal); compute_i_p_radical_partial: I_p is the radical, conditional on pow_linear',
+    '[P] one_step_is_order (the Round 2 step maps orders to orders): if the input of a returning step at a prime p is an order -- a '
+    'stored basis of a lattice that contains 1 and on which Order::get_mult_table returns (closed under multiplication) -- then so is '
+    'its result (ring closure carried from coordinates to the stored basis o\' = hnf_reduce((h/p)O) through the product of Q[x]/(f)); '
+    'order_step_returns: on an order and at a prime the step returns; prime_loop_order: the while loop at a prime, started on an order, '
+    'returns an order or panics with the u64 overflow of e -= 2*howmany only',
+    '[P] find_integral_basis_order_monic / monic_start_table: for every monic f of degree >= 1 (both profiles) the starting order is '
+    'closed under multiplication (remainders of X^k by a monic integer polynomial are integral; same lattice as the power basis), hence '
+    'without any flag: a returning driver returns an order (stored basis, contains 1, get_mult_table returns on it) and every panic of '
+    'the driver is a panic of non_monic_initial_order, of o.discriminant(theta), of the trial factorisation (discriminant 0) or the u64 '
+    'overflow of e -= 2*howmany -- no panic inside one_step is reachable',
+    '[C] find_integral_basis_order_partial: PROVIDED Order::get_mult_table returns on the starting order Z[theta] cap Z[1/theta] (flag '
+    'computed by the model; it does on every explored input), the driver returns an order and each of its panics is a panic of '
+    'non_monic_initial_order, of o.discriminant(theta), of the trial factorisation (discriminant 0) or the u64 overflow of the exponent '
+    'bookkeeping: no assertion / index / unwrap panic of one_step is reachable (primes from C11 trial_factorize_spec)',
+    '[P] one_step_only_assert: on a stored basis and at a prime, one_step never runs out of fuel and its only reachable panic is '
+    'assert!(inv[k].is_integer()) (round2.rs:40): the expect on solve_linear_system and every index operation are unreachable',
+    '[P] one_step_no_panic / one_step_returns: on a stored basis (lower triangular, positive diagonal) and a prime p, every panic of '
+    'one_step is a panic of the construction of the two tables (the expect on solve_linear_system or assert!(inv[k].is_integer()), i.e. '
+    'the input is not closed under multiplication) and the step never runs out of fuel; unreachable: assert!(u_p.len() <= deg), '
+    'assert_eq!(u_p.dim(), deg) (full rank of [U_p; pI]), the panics of Order::from_basis (the new basis (h/p)O is non-singular), '
+    'the panic! of index (old = S * new with S integral) and every assert_eq!(index % p, 0) (det S divides p^deg)',
 ]
 NOT_PROVED = [
     'a fixed point of the Round 2 step (howmany = 0) is p-maximal (Pohst-Zassenhaus), hence maximality of the result and '
     'disc = field discriminant',
-    'the intermediate lattices (U_p + pO)/p are rings containing 1 (closure under multiplication), which is also what makes the '
-    'integrality hypothesis of prime_loop_no_underflow_partial true',
+    'that the starting order Z[theta] cap Z[1/theta] of a NON-MONIC f is closed under multiplication (the flag of '
+    'find_integral_basis_order_partial; proved for monic f: find_integral_basis_order_monic), and that the discriminant of an order is an integer with '
+    'p^(2 howmany) dividing it (the hypothesis of prime_loop_no_underflow_partial: needs the trace form) -- so the u64 overflow of '
+    'e -= 2*howmany is the one panic of the loops not excluded unconditionally',
     'independence of the generator (theta + k, -theta, c*theta, 1/theta give the same discriminant)',
-    'absence of panics inside one_step (the assertions is_integer, u_p.len() <= deg, dim == deg, index % p == 0) and termination of '
-    'its HNF calls on the matrices it builds are not proved for all inputs (they hold on every explored input)',
+    'inside one_step only the assertions of the table construction (expect on solve_linear_system, is_integer) are reachable, and only '
+    'on inputs that are not orders (w3_not_a_ring); on orders the step is proved panic-free (order_step_returns)',
     'the remaining exponent bookkeeping in the release profile (wrap-around) is modelled but no theorem is stated about it',
 ]
 ASSUMPTIONS = ['num::integer::lcm on BigInt taken as Z.lcm (non-negative)',
@@ -63,16 +106,20 @@ ASSUMPTIONS = ['num::integer::lcm on BigInt taken as Z.lcm (non-negative)',
 CLAIM = dict(
     technique='Coq proof about the Gallina model of find_integral_basis / round2::one_step + extracted-model-vs-implementation correspondence '
               '+ independent maximality oracle on every explored input',
-    text='Proved for all inputs about the model (coq/Props/C06.v, 19 theorems, closed under the global context): the loop structure and exit '
+    text='Proved for all inputs about the model (coq/Props/C06.v, 44 theorems, closed under the global context): the loop structure and exit '
          'condition of the driver, index(new, old) = p^howmany for every step on a stored basis, containment of the input order in every '
          'step result and of the starting order in the final result, disc(start) = disc(O) * index^2 with index >= 1, the degree-1 case, '
-         'and (conditionally on integrality of the intermediate discriminants) absence of u64 underflow. The model (coq/Model/Round2.v on '
+         '(conditionally on integrality of the intermediate discriminants) absence of u64 underflow; and for the Round 2 step itself: the '
+         'lattices it computes (I_p = kernel of the linearised power map = the p-radical { x : x^pow = 0 mod p }, an ideal; U_p = its p-fold '
+         'multiplier lattice), that the step maps orders to orders (contains 1, closed under multiplication: get_mult_table returns on the '
+         'result) and cannot panic or run out of fuel on an order at a prime, hence that the driver returns an order and can only panic outside one_step (for monic f '
+         'unconditionally; for non-monic f conditionally on the starting order being a ring, a flag the model computes). The model (coq/Model/Round2.v on '
          'top of Hnf.v, LinAlg.v, Order.v, Algebraic.v, Resultant.v, Elementary.v) reproduces the driver and the Round 2 step statement by '
          'statement (tables mod p and p^2 with truncating %, Frobenius power, I_p and U_p through HNF::new(HNF::kernel(.)) with row '
          'truncation, assertions, u64 exponent bookkeeping); it is tied to /repo by running the extracted model and impl_svc (library, '
          'one_step through the access wrapper, and the CLI) on the same inputs.',
-    note='NOT proved: p-maximality of a fixed point of the step (Pohst-Zassenhaus), ring structure of the intermediate lattices, '
-         'independence of the generator; these clauses are checked on every explored input by an independent oracle (ring axioms, '
+    note='NOT proved: p-maximality of a fixed point of the step (Pohst-Zassenhaus), that the starting order of a non-monic f is a ring (proved for monic f), '
+         'integrality of the discriminant of an order (trace form), independence of the generator; these clauses are checked on every explored input by an independent oracle (ring axioms, '
          'discriminant by formula / trace form / closed forms of quadratic, pure cubic, cyclotomic, biquadratic fields, p-maximality by '
          'the Dedekind criterion and by an own multiplier-ring test, equal discriminants across changes of generator).',
     ref='DESIGN.md section 4, C06')
